@@ -1,2 +1,5 @@
 import Dm.Model.FmtParse
 import Dm.Model.StdFmt
+import Dm.Model.TyGen
+import Dm.Model.FmtAttr
+import Dm.Model.FmtExpand
